@@ -24,31 +24,31 @@ def chk(pid, cat, text, note, tech, ref):
 common_note = " Quiescence detection relies on go1.23 wait-reason strings (an unknown reason can only stall into the watchdog: exit 2, never a verdict). A clean batch is evidence, not proof."
 checks = [
 chk("C09","exploration",
- "Every (renderer, model, resolution, sink) signature is rendered once canonically in a fresh process and then under seeded schedules (evaluations parked before and after the real Evaluate, writer, batch sender and consumers parked at hooks; uniform/pct/starve/burst policies), GOMAXPROCS 1..16, worker-pool sizes 1..16 (CPU affinity), after 0..3 preceding renders and with 1..3 concurrent renders in the same process; every output digest must equal the canonical one.",
+ "Every (renderer, model, resolution, sink) signature is rendered once canonically in a fresh process and then under seeded schedules (evaluations parked before and after the real Evaluate, writer, batch sender and consumers parked at hooks; uniform/pct/starve/burst policies), GOMAXPROCS 1..16, worker-pool sizes 1..16 (CPU affinity), after 0..3 preceding renders and with 1..3 concurrent renders in the same process; every output digest must equal the canonical one. Also: the whole shape catalogue built and rendered in several fresh processes; every resolution 2..32 of the uniform renderer; trigger schedules (a goroutine or a whole second render is held back and let through exactly when another goroutine is at the k-th instrumented code location); faults in real time and of the environment (slow writer goroutine, slow evaluation, a final step that takes 11 s, another calendar day via TZ, forced garbage collections); the sink is also digested at the moment the call returns.",
  "Evaluations are parked at the SDF interface seam; model construction order inside a process is fixed by the episode script; NumCPU <= 16." + common_note,
  "deterministic simulation: seeded goroutine scheduler over the real worker pool and writer goroutines; canonical-vs-perturbed output digests across fresh processes", "DESIGN.md §3 C09"),
 chk("C10","exploration",
- "For every exported sdf/obj constructor (catalogue audited against the source with go/parser): 2..4 simulated callers evaluate one shared instance over overlapping point lists, parked before each call and inside combinators at yielding leaf wrappers; a rotating quarter (thorough: all) is also rendered with the uniform marching-cubes worker pool. Built with -race; parking is invisible to the race detector, so reports depend on the simulated schedule only and replay from the seed. Oracle: bit-identical values vs sequential evaluation of a fresh instance, no race report with an sdfx frame, no runtime fault.",
+ "For every exported sdf/obj constructor (catalogue audited against the source with go/parser): 2..4 simulated callers evaluate one shared instance over overlapping point lists, parked before each call and inside combinators at yielding leaf wrappers; a rotating quarter (thorough: all) is also rendered with the uniform marching-cubes worker pool. Every blend option on every shape with a setter; long and threshold-crossing query histories (2^8..2^20 evaluations) before and during the concurrent phase for every light-weight entry, under forced garbage collections; trigger and site-stall schedules over the automatically inserted hooks. Built with -race; parking is invisible to the race detector, so reports depend on the simulated schedule only and replay from the seed. Oracle: bit-identical values vs sequential evaluation of a fresh instance, no race report with an sdfx frame, no runtime fault.",
  "Sub-call interleavings inside un-wrappable leaves are not explored; there the verdict rests on the happens-before race detector (bounded shadow history: misses possible, false reports not)." + common_note,
  "deterministic simulation of concurrent callers with race-detector-invisible parking (runtime.RaceDisable window) + ThreadSanitizer + value oracle", "DESIGN.md §3 C10"),
 chk("C11","exploration",
- "Seeded search over producer/consumer interleavings, item counts, batch partitions and producer counts of the real buffer/channel/consumer pipeline into all five sinks; conservation oracle evaluated at the moment the call returns and at quiescence. The thorough tier additionally enumerates every item count 0..1100 for three canonical partitions.",
+ "Seeded search over producer/consumer interleavings, item counts, batch partitions and producer counts of the real buffer/channel/consumer pipeline into all five sinks; conservation oracle evaluated at the moment the call returns and at quiescence. The thorough tier additionally enumerates every item count 0..1100 for three canonical partitions. Also: 2^16..2^20-item outputs, producers that reuse their batch slice, repeated and mid-stream Close, outputs on a named pipe (content checked on what the reader received), slow consumers and an 11 s final step in real time, forced garbage collections, trigger sweeps for every sink.",
  "Interleaving is controlled at seam granularity (producer Write calls, consumer loop iterations, final flush/encode/save) through the verif-tagged hooks; the harness's own decoders are trusted." + common_note,
  "deterministic simulation: seeded goroutine scheduler over real goroutines + scripted producers; conservation oracle on decoded sinks", "DESIGN.md §3 C11"),
 chk("C12","fault_enumeration",
- "Every render-to-file entry x renderer x disk fault (create failure, /dev/full, RLIMIT_FSIZE budget at every 4096-byte flush index +-1, header offsets, final flush, header rewrite; every byte offset for small files in the thorough tier) x schedule; liveness oracle is the simulator's deadlock verdict (state-based, not a timeout). Goroutine census over repeated render histories.",
+ "Every render-to-file entry x renderer x disk fault (create failure, /dev/full, RLIMIT_FSIZE budget at every 4096-byte flush index +-1, header offsets, final flush, header rewrite; every byte offset for small files in the thorough tier) x schedule; liveness oracle is the simulator's deadlock verdict (state-based, not a timeout). Goroutine census over repeated render histories. Further fault kinds: file unlinked after creation, descriptor exhaustion, symbolic-link loops, output on a named pipe (also with a reader that is busy for 12..35 s), a failed flush followed by a renderer that pauses 7..31 s; resolutions 1..1024, placements far/huge/tiny, a space-filling infill model, models used 2^16..2^20 times before the render, GOMAXPROCS above the CPU count; census histories that alternate resolutions.",
  "The kernel acts as the disk (RLIMIT_FSIZE/EFBIG, /dev/full/ENOSPC, ENOENT, EISDIR); faults needing a lying file descriptor are out of reach. NumCPU <= 16." + common_note,
  "deterministic simulation with disk-fault injection at the file-system boundary; deadlock verdict from goroutine-state snapshots; goroutine census", "DESIGN.md §4 C12"),
 chk("C13","exploration",
- "Write->read histories across the storage boundary: seeded triangle lists over the float32 range written through the streaming writer (scripted renderer, seeded batch partitions and producer/consumer schedules) and through SaveSTL; byte equality of the two, independent decoding of every field, LoadSTL round trip, ASCII round trip.",
+ "Write->read histories across the storage boundary: seeded triangle lists over the float32 range written through the streaming writer (scripted renderer, seeded batch partitions and producer/consumer schedules) and through SaveSTL; byte equality of the two, independent decoding of every field, LoadSTL round trip, ASCII round trip. SaveSTL under write faults (success implies a well-formed file); loaded meshes compared after further loads and after in-place edits; counts up to 2^20; output paths with spaces, non-ASCII, 180-character names, symlinked directories and files; real-time stalls and forced garbage collections.",
  "The schedule/batching dimension is what simulation adds; the coordinate dimension is seeded input generation and labelled as such. Normals are compared for well-conditioned triangles only." + common_note,
  "deterministic simulation of the streaming STL writer pipeline + independent byte-level decoder + round-trip oracle", "DESIGN.md §5 C13"),
 chk("C14","fault_enumeration",
- "The loader over the storage-fault closure of valid files: every truncation offset, every count-field bit, every flush-index crash image of the streaming writer, every line-level ASCII fault and every single/pair sector fault of small files are enumerated; multi-fault sequences (1..4 operators) and the shipped files are sampled. Both entry points (render.LoadSTL, obj.ImportSTL). Oracle: error or mesh, no panic, no hang, bounded allocation.",
+ "The loader over the storage-fault closure of valid files: every truncation offset, every count-field bit, every flush-index crash image of the streaming writer, every line-level ASCII fault and every single/pair sector fault of small files are enumerated; multi-fault sequences (1..4 operators) and the shipped files are sampled. Both entry points (render.LoadSTL, obj.ImportSTL). Undamaged files of every triangle count 0..300 (thorough 4200) and round counts to 65537; line-only files up to 16 Mi lines (stack growth counted as memory); encoding damage; loads under GOMAXPROCS 1..64 and with 0..2 free file descriptors. Oracle: error or mesh, no panic, no hang, bounded allocation.",
  "Totality is claimed over what a faulty disk makes of a valid file, not over adversarial byte strings; a hang is a 20 s bound on sequential code.",
  "storage-fault injection between write and read (crash images, torn/lost/misdirected sectors, bit rot, truncation) with enumeration of the small-file fault space", "DESIGN.md §4 C14"),
 chk("C15","exploration",
- "Seeded triangle/segment lists (empty, duplicates, shared vertices, negative, tiny, large, decimal halfway cases) through To3MF/ToDXF/ToSVG under seeded batch partitions and schedules and through SaveDXF/SaveSVG; decoded with the harness's own zip+xml / DXF group-code / xml readers and compared with a reference model written from the property statement.",
+ "Seeded triangle/segment lists (empty, duplicates, shared vertices, negative, tiny, large, decimal halfway cases) through To3MF/ToDXF/ToSVG under seeded batch partitions and schedules and through SaveDXF/SaveSVG; decoded with the harness's own zip+xml / DXF group-code / xml readers and compared with a reference model written from the property statement. The drawing objects behind SaveDXF/SaveSVG are also driven step by step (Line/Lines/Points, repeated Save, caller storage overwritten); exact binary ties and round-off residues among the coordinates; counts to 65537.",
  "One known finding (DXF text has 16 decimals) is listed in known_findings.json and reported as KNOWN-FINDING; any other difference is a violation." + common_note,
  "deterministic simulation of the sink pipelines + independent decoders + reference model of each format", "DESIGN.md §5 C15"),
 ]
